@@ -273,12 +273,26 @@ def clause_no_stale_overwrite(prog, rep, syncs):
     rep.floor("sync-after-merge", "group saves following a sync in the same function", n, 2)
 
 
+def clause_sync_cannot_be_refused(prog, rep):
+    """the sync after a peer's commit must not be refusable by a storage size bound nothing enforced before the merge: when it is, the MLS
+    state has advanced and the record has not (shared with C06 validate-then-apply/storage-bound)"""
+    import os
+    import sys
+    sys.path.insert(0, os.path.dirname(os.path.abspath(__file__)))
+    import c06
+    core = K.core_scope(prog)
+    roots = prog.find(adt="MDK", name="process_message", crate="mdk_core")
+    scope = set(p for p in prog.reachable(roots) if p in core)
+    c06.clause_storage_bounds_after_merge(prog, rep, scope, rule="sync-after-merge")
+
+
 def run(ctx, rep):
     prog = ctx.prog()
     sch = sqlmod.Schema()
     rep.fns_analysed = len(K.core_scope(prog))
     rep.clause("C08.1 every MLS merge is followed on every Ok path by the metadata sync (or the Inactive save on eviction / the creator's own save)")
     rep.clause("C08.1b a group record saved after the sync in the same function was re-read after the sync (no stale overwrite)")
+    rep.clause("C08.1c the sync after a peer's commit cannot be refused by a storage size bound that nothing enforced before the merge")
     rep.clause("C08.2 the sync copies epoch, name, description, admins, image_hash/key/nonce, nostr_group_id and relays from the current MLS state")
     rep.clause("C08.3 outgoing wrappers carry hex(stored nostr_group_id); incoming events are looked up by their h tag")
     rep.clause("C08.4 routing index: SQLite unique index; memory backend removes the stale entry on rotation and refuses collisions")
@@ -286,6 +300,7 @@ def run(ctx, rep):
     syncs = sync_fns(prog)
     clause_sync_after_merge(prog, rep, syncs)
     clause_no_stale_overwrite(prog, rep, syncs)
+    clause_sync_cannot_be_refused(prog, rep)
     clause_wiring(prog, rep, syncs)
     clause_routing(prog, rep)
     clause_index(prog, rep, sch)
